@@ -7,6 +7,7 @@ import (
 	"regexp"
 	"runtime/debug"
 	"sort"
+	"strconv"
 	"strings"
 	"testing"
 	"testing/synctest"
@@ -234,7 +235,34 @@ func HangVerdict(dump string) *Result {
 	// mutexes are never held across a gate, and Sched.Gate does not park a
 	// goroutine that holds one at a hand-shake gate): its holder is among the
 	// blocked ones.
-	if !mutexWait || !(nothingEnabled || waitsShort) {
+	// Third case: a goroutine waits for ldb's writer mutex inside BeginTx although
+	// the simulated writer lock - released by every Commit and Rollback of the
+	// holder - says it is this goroutine's turn: the real lock was not released
+	// by whoever held it before (leaked on some path), and nobody ever will.
+	leaked := false
+	gidRe := regexp.MustCompile(`^goroutine (\d+) \[`)
+	for _, g := range strings.Split(dump, "\n\n") {
+		if !strings.Contains(g, "ldb.(*LevelDB).BeginTx") || !strings.Contains(g, "sync.(*Mutex).Lock") {
+			continue
+		}
+		m := gidRe.FindStringSubmatch(g)
+		if m == nil {
+			continue
+		}
+		id, _ := strconv.ParseInt(m[1], 10, 64)
+		w.S.mu.Lock()
+		mg := w.S.gs[id]
+		if (mg != nil && w.S.lockHolder == mg) || (mg == nil && w.S.rootHolds) {
+			leaked = true
+		}
+		w.S.mu.Unlock()
+		if leaked {
+			mutexWait = true
+			involved = append(involved, "[writer lock of the store never released by its previous holder]\n"+firstLines(g, 14))
+			break
+		}
+	}
+	if !mutexWait || !(nothingEnabled || waitsShort || leaked) {
 		return nil
 	}
 	res := &Result{Prop: prop, Seed: seed, Stats: w.Stats, Steps: w.S.Steps, TraceHash: fmt.Sprintf("%016x", w.S.TraceHash),
